@@ -227,6 +227,12 @@ def run_cli(case):
     o = dict(GridSize=n, PhaseSpaceSize=2 * L, StepsPerTs=steps, rotations=float(np.float32((steps - 0.5) / steps)), outstep=1,
              DampingTime=0.0, VacuumGap=0.0, RenormalizeCharge=-1, InterpolationPoints=case["it"], LinearRF=case["linear"],
              PhaseSpaceShiftX=sx, PhaseSpaceShiftY=sy, InitialDistFile="start.h5")
+    if case.get("off_via_fptype"):
+        # the other way to run without damping and diffusion: FPType=0 ("no Fokker-Planck term") while the damping time keeps
+        # its default (calculated from the ring) - main then builds the Fokker-Planck map object with nothing in it
+        # (round-9 seeds C03i / C03j lose the 'none' case in that constructor)
+        o.pop("DampingTime")
+        o["FPType"] = 0
     if case["alpha1"]:
         o["alpha1"] = case["alpha1"]
         o["alpha2"] = case["alpha2"]
@@ -244,7 +250,7 @@ def run_cli(case):
         o["StepsPerRevolution"] = float(steps * d0["fs"] / d0["frev"])
         o["StepsPerTs"] = case["decoy"]
     r = cli.run(["-c", "/dev/null", "-o", "r.h5"] + cli.optargs(o), wd)
-    cls = ["cli", "linear" if case["linear"] else "sinus", "it%d" % case["it"], "StepsPerRevolution" if case.get("via_rev") else "StepsPerTs"] + (["fs_route"] if case.get("fs_route") else [])
+    cls = ["cli", "linear" if case["linear"] else "sinus", "it%d" % case["it"], "StepsPerRevolution" if case.get("via_rev") else "StepsPerTs"] + (["fs_route"] if case.get("fs_route") else []) + (["off_via_fptype"] if case.get("off_via_fptype") else [])
     if r.rc != 0 or "Finished." not in r.out:
         return Outcome(False, True, cls, "run failed: %s %s" % (r.out[-300:], r.err[-300:]), sig="c03:cli:runfail")
     h = cli.H5(os.path.join(wd, "r.h5"))
@@ -277,6 +283,7 @@ def cli_cases(draw):
              sy=float(draw(st.integers(-ms, ms))) if draw(st.booleans()) else 0.0,
              gauss=draw(gaussians(L, n, it, ms)), alpha1=0.0, alpha2=0.0)
     c["via_rev"] = draw(st.integers(0, 2)) == 0
+    c["off_via_fptype"] = draw(st.integers(0, 2)) == 0
     if draw(st.integers(0, 2)) == 0:
         c["fs_route"] = float(10 ** draw(st.floats(-3.3, -2.0)))
         c["decoy_alpha0"] = draw(st.sampled_from([4e-3, 1e-3, 2e-2, 5e-4]))
